@@ -2,7 +2,7 @@
    non-vacuity examples and the witnesses of the known findings F3, F4, F5 (the model reproduces
    what the real crate does; the same scenarios + schedules are replayed on the real code by the
    checks, corpus/*_known_*.txt). *)
-From RS Require Import Base Channel Pipeline Selector Script World Instance Hist WorldSubs WorldSids WorldForward WorldRegistered WorldFoldDyn.
+From RS Require Import Base Channel Pipeline Selector Script World Instance Hist WorldSubs WorldSids WorldForward WorldRegistered WorldFoldDyn WorldFwdFinal.
 
 Definition sc0 : scripts := mkScripts [mkRscript 0%N true []] [] [].
 Definition cfg0 := script_config sc0 16 Block.
@@ -147,3 +147,17 @@ Example runtime_registration_exists :
   | None => False
   end.
 Proof. vm_compute. repeat split. Qed.
+
+(* ---- non-vacuity of C04_forwarding_is_final / C14_remaining_pairs_after_stop: an iterator
+   drained to the end by its own thread while another thread stops the store: the reducer is done
+   (releasing), everything forwarded - [1; 2] - was yielded, nothing is queued, None was returned ---- *)
+Definition w_end := scenario_world sc0 16 Block [0%N] [] []
+  [[CIter 1%N 1 Block; CDispatch EStoreImpl 1%N; CDispatch EStoreImpl 2%N; CDrain 1%N]; [CStop]].
+Example drained_iterator_after_stop :
+  let w := drive 800 w_end in
+  get_thread (w_threads w) reducer_tid = Some (TReducer RDone) /\
+  (exists c, get_chan (w_chans w) 1%N = Some c /\ pol c = Block /\ qacts c = []) /\
+  rev (subsends 1%N (w_hist w)) = [1; 2]%N /\ rev (subrecvs 1%N (w_hist w)) = [1; 2]%N /\
+  memN 1%N (w_iter_done w) = true /\
+  forallb (fun p => thread_finished (snd p)) (w_threads w) = true.
+Proof. vm_compute. repeat split. eexists. repeat split. Qed.
